@@ -177,6 +177,12 @@ func tokOf(v reflect.Value) Tok {
 		if v.IsNil() {
 			return Tok{}
 		}
+	case reflect.Slice:
+		// a slice-typed single value is identified by its first element
+		if v.Len() == 0 {
+			return Tok{}
+		}
+		return tokOf(v.Index(0))
 	}
 	if c, ok := v.Interface().(Carrier); ok {
 		return c.VTok()
